@@ -158,8 +158,11 @@ def errors(blob, with_paths=False):
     out = set()
     for e in schema.error_log:
         m = _norm(e.message)
+        # location class: last three steps of the element path, positional predicates and prefixes dropped
+        steps = [re.sub(r"\[\d+\]", "", st).split(":")[-1] for st in (e.path or "").split("/") if st]
+        m = "%s @%s" % (m, "/".join(steps[-3:]))
         if with_paths:
-            m = "%s @%s" % (m, e.path)
+            m = "%s [%s]" % (m, e.path)
         out.add(m)
     return out
 
@@ -168,12 +171,16 @@ def error_kinds(errs):
     """Coarser record (element/attribute names only) used for finding keys."""
     out = set()
     for e in errs:
+        loc = ""
+        if " @" in e:
+            e, loc = e.rsplit(" @", 1)
         m = re.findall(r"\}(\w+)'", e)
         attr = re.findall(r"attribute '(\w+)'", e)
         kind = ("order" if "This element is not expected" in e or "Missing child" in e
                 else "attr" if "attribute" in e else "value" if "is not a valid value" in e or "facet" in e
                 else "other")
-        out.add("%s:%s" % (kind, "/".join(dict.fromkeys(m + attr))[:80]))
+        names = "/".join(dict.fromkeys(m[:1] + attr))[:60]
+        out.add("%s:%s@%s" % (kind, names, loc) if loc else "%s:%s" % (kind, names))
     return out
 
 
